@@ -61,7 +61,10 @@ func genEQReuse(t *rapid.T) eqReuse {
 	// MaxResults unset or 1 (the target walks a Go map when it looks for
 	// containing shapes and stops at MaxResults) and MaxError unset (the inner
 	// single-result query may return any edge within MaxError).
-	allowIndex := (c.Cfg.K == 0 || c.Cfg.K == 1) && c.Cfg.MaxErr == 0
+	// In a third of the other cases index targets are generated anyway and compared
+	// loosely (see runEQReuse): MaxError > 0 with MaxResults > 1 and an index target
+	// is the only combination that exercises the query's tested-edge set.
+	allowIndex := ((c.Cfg.K == 0 || c.Cfg.K == 1) && c.Cfg.MaxErr == 0) || rapid.IntRange(0, 2).Draw(t, "looseIndex") == 0
 	nt := rapid.IntRange(1, 4).Draw(t, "ntargets")
 	hasIndex := false
 	for i := 0; i < nt; i++ {
@@ -116,7 +119,7 @@ func runEQReuse(c eqReuse) ev.Outcome {
 		return o
 	}
 	for _, ts := range c.Targets {
-		if ts.Kind == "index" && (len(c.TargetShapes) == 0 || !(c.Cfg.K == 0 || c.Cfg.K == 1) || c.Cfg.MaxErr != 0) {
+		if ts.Kind == "index" && len(c.TargetShapes) == 0 {
 			o.Skip = true
 			return o
 		}
@@ -169,7 +172,21 @@ func runEQReuse(c eqReuse) ev.Outcome {
 		fidx := indexOfShapes(buildShapes(c.Shapes))
 		fq := c.Cfg.query(fidx, c.Cfg.options())
 		want := eqCall(fq, op.M, makeTarget(ts, c.Cfg.Furthest, c.TargetShapes), s1.ChordAngle(op.Limit))
-		d, r := sameAnswer(op.M, c.Cfg, got, want)
+		var d string
+		var r float64
+		if ts.Kind == "index" && !((c.Cfg.K == 0 || c.Cfg.K == 1) && c.Cfg.MaxErr == 0) {
+			// not a function of the inputs (the target walks a Go map; any edge within
+			// MaxError may be substituted): only the order-free facts are compared -
+			// the number of results, and the threshold answers
+			switch {
+			case op.M == "FindEdges" && len(got.Res) != len(want.Res):
+				d = fmt.Sprintf("%d results, fresh query gives %d", len(got.Res), len(want.Res))
+			case isThreshold(op.M) && got.Bool != want.Bool:
+				d = fmt.Sprintf("%v, fresh query gives %v", got.Bool, want.Bool)
+			}
+		} else {
+			d, r = sameAnswer(op.M, c.Cfg, got, want)
+		}
 		if r > worstRatio {
 			worstRatio = r
 		}
